@@ -13,7 +13,7 @@ rule = ("scripts = 'p fmt <description of the style> 255 255' then groups of 'p 
         "executable and re-checked by it on every run), 'p node' (real mpt_parse_node on that text; the spec "
         "alternative is exactly the normalised forest), closed by 'p end'; stream 1 enumerates EVERY ordered forest "
         "shape with <= 5 nodes (thorough: 6) x 4 name patterns (distinct / all equal / alternating / digits and dashes) x 4 value patterns x the "
-        "styles that can express it (brace: all; sep, bar: options + one level of sections; enc: option lists) x 4 decorations; stream 2 = random forests (depth <= 5, fan-out <= 5, names "
+        "styles that can express it (brace: all; sep, bar: options + one level of sections; enc: option lists) x 5 decorations (the fifth glues a comment directly to section names / braces); stream 2 = random forests (depth <= 5, fan-out <= 5, names "
         "up to 300 bytes, values of 1..40 bytes and of 249..257 bytes, thorough: 65534..65537 bytes, values that "
         "need quoting, embedded quotes/backslashes/line feeds/high bytes); stream 3 = names that contain the path "
         "separator '.' (known finding dot-in-name); non-trivial = the real code returned a "
@@ -137,7 +137,7 @@ def exhaustive(tier):
     forests = sorted(set(forests))
     out = []
     for style in STYLES:
-        reqs = [(style, d, f) for f in forests for d in range(4)]
+        reqs = [(style, d, f) for f in forests for d in range(5)]
         res = render_all(reqs)
         items = [(d, f, h) for (s, d, f), (h, adm) in zip(reqs, res) if adm and h]
         out += assemble("ex", style, items, 20)
@@ -188,7 +188,7 @@ def random_forests(tier, seed, scale):
         reqs = []
         for _ in range(n // 3 + 1):
             f = _rand_forest(r, tier, 0, style != "brace")
-            reqs.append((style, r.randrange(4), forest_text(f)))
+            reqs.append((style, r.randrange(5), forest_text(f)))
         res = render_all(reqs)
         items = [(d, f, h) for (s, d, f), (h, adm) in zip(reqs, res) if adm and h]
         out += assemble("rnd", style, items, 4)
